@@ -561,6 +561,11 @@ func c18Run(c *h.Ctx) {
 				cs.faults = c18Faults(fr, cs.n, cs.edges, 1+fr.Intn(4))
 			}
 			var ref []string
+			// every fourth case runs with one router named under another router's name
+			dvNestedNames = ci%4 == 1 && cs.n >= 2
+			if dvNestedNames {
+				c.Count("cases_with_nested_router_names", 1)
+			}
 			for sd := 0; sd < nSched; sd++ {
 				id := fmt.Sprintf("g%d/v%d/s%d", ci, variant, sd)
 				if !c.Case(id) {
@@ -599,6 +604,7 @@ func c18Run(c *h.Ctx) {
 			}
 		}
 	}
+	dvNestedNames = false
 	// ---- lossy fetches: a few cases per batch (every NACK costs the router's own 2 s back-off)
 	nLossy := 0
 	for ci, base := range cases {
